@@ -93,10 +93,15 @@ def _worker(args):
         "samples": [], "inconclusive": 0, "aborted": 0, "states": set(), "extra": Counter(), "harness_errors": [],
     }
     i = start
+    armed_at = 0.0
     while i < n_max and time.time() < deadline:
         seed = derive_seed(master, i)
         i += stride
-        faulthandler.dump_traceback_later(120, exit=True)
+        # watchdog against hangs: re-armed at most every 5 s (arming spawns a thread, which
+        # dominates cheap runs when done per run)
+        if time.time() - armed_at > 5.0:
+            faulthandler.dump_traceback_later(180, exit=True)
+            armed_at = time.time()
         try:
             out = mod.run_one(seed, tier=tier, variant=variant)
         except HarnessError as e:  # pragma: no cover
@@ -105,8 +110,6 @@ def _worker(args):
         except Exception as e:  # pragma: no cover  (a bug in the harness, never a verdict)
             agg["harness_errors"].append((seed, repr(e), traceback.format_exc()))
             break
-        finally:
-            faulthandler.cancel_dump_traceback_later()
         agg["runs"] += 1
         s = out.summary
         for k, v in (s.get("fired") or {}).items():
@@ -137,6 +140,7 @@ def _worker(args):
             else:
                 agg.setdefault("violations_dropped", 0)
                 agg["violations_dropped"] = agg.get("violations_dropped", 0) + 1
+    faulthandler.cancel_dump_traceback_later()
     agg["sigs"] = list(agg["sigs"])
     agg["states"] = list(agg["states"])
     return agg
